@@ -214,17 +214,28 @@ def _check_hash(ctx, tag, loc, inst, fields):
             ok_val = rv[0] == "call" and rv[1] == "self.get_hash"
             saw.add("legacy")
         else:
-            ok_val = rv == ("call", "hash", (want_tuple,), ())
+            # equal objects have the same class and equal fields: the hash may
+            # be any function of those -- the fields (each compared by
+            # __eq__) and constants derived from the class
+            def class_const(x):
+                return x == ("typeof", SELF) or (
+                    x[0] == "attr" and x[1] == ("typeof", SELF)) or (
+                    x[0] == "const" and isinstance(x[1], str))
+            arg = rv[2][0] if rv[0] == "call" and rv[1] == "hash" and \
+                len(rv[2]) == 1 else None
+            ok_val = arg is not None and arg[0] == "lit" and arg[1] == "tuple" \
+                and all(x in want_tuple[2] or class_const(x) for x in arg[2]) \
+                and (not fields or any(x in want_tuple[2] for x in arg[2]))
             saw.add("fields")
         ok_w = len(writes) == 1 and writes[0].args[0] == SELF and \
             writes[0].args[1] == ("const", "_hash_value") and \
             writes[0].args[2] == rv and not other_writes
         ctx.ob(f"{tag}/hash/{'legacy' if legacy else 'fields'}-value", ok_val, loc,
                ("hash over get_hash()" if legacy else
-                f"hash over the tuple of all fields {fields}") if ok_val else
+                f"hash over fields {fields} (and class constants) only") if ok_val else
                ("generated __hash__ does not hash " +
                 ("via get_hash() on the legacy branch" if legacy else
-                 f"exactly the tuple of all fields {fields}: "
+                 f"a tuple of its fields {fields} and class constants only: "
                  f"{ast.unparse(ps.items[-1][1].value) if ps.items[-1][1] is not None and ps.items[-1][1].value is not None else rv}")))
         ctx.ob(f"{tag}/hash/only-hash-value-written", ok_w, loc,
                "the only attribute written is _hash_value, via object.__setattr__,"
